@@ -105,6 +105,12 @@ def run(tier, t0):
     prog = program()
     fns, derived = totality.in_scope_fns(prog, ['minidump_processor', 'minidump_unwind', 'breakpad_symbols'])
     nontrivial = totality.run_panics(res, prog, fns, 'C03.1', floor_sites=600)
+    if tier == 'thorough':
+        totality.clippy_crosscheck(res, prog, fns, 'C03.1')
+        # cfg-gated twin: breakpad-symbols without the `http` feature
+        prog2 = program('symbols-nohttp')
+        fns2, _ = totality.in_scope_fns(prog2, ['breakpad_symbols'])
+        totality.run_panics(res, prog2, fns2, 'C03.1' + '/nohttp', floor_sites=50)
     totality.run_loops(res, prog, fns, 'C03.2', floor_l3=7)
     totality.run_allocs(res, prog, fns, 'C03.4', floor=5)
     walk_bound(res, prog)
